@@ -1061,6 +1061,7 @@ Proof.
     unfold realloc_fast.
     destruct (N.leb_spec new old) as [Hle|Hgt].
     + (* shrinking *)
+      destruct (c_sv c && negb (validate (st_a st) s)); [discriminate|].
       intros H; inversion H; subst q a'; clear H.
       assert (Hlvl : (b_lvl b <= lvl_of g k)%nat).
       { apply orb_true_iff in Hfind. destruct Hfind as [H|H]; [apply Nat.leb_le in H; assumption|].
